@@ -240,6 +240,92 @@ def select_default_sweep(tier="quick", seed=0):
                          "bound": "5 selector kinds (Bit, BitVector[2], Unsigned[2] with literal and integer choices, an enumeration of 3) x sequential / concurrent x default / none x all values listed / one missing"}]}
 
 
+_CONTROL_SCRIPT = r'''
+from __future__ import annotations
+import json, linecache, re
+import cohdl
+from cohdl import Entity, Port, Bit, BitVector, Unsigned, Signal, select_with
+from cohdl import std
+
+BODIES = {
+    "match": "match self.sv:\n                case '00':\n                    self.x <<= self.d0 & self.d1\n                case '01':\n                    pass",
+    "match-with-default": "match self.sv:\n                case '00':\n                    self.x <<= self.d0\n                case _:\n                    self.x <<= self.d1",
+    "match-value-used-afterwards": "match self.sv:\n                case '00':\n                    t = self.d0 & self.d1\n                case _:\n                    pass\n            self.x <<= t",
+    "if": "if self.d0:\n                self.x <<= self.d1",
+    "if-else": "if self.d0:\n                self.x <<= self.d1\n            else:\n                self.x <<= ~self.d1",
+    "for-break": "for bit in self.sv:\n                if bit:\n                    self.x <<= self.d1\n                    break",
+    "if-expression": "self.x <<= self.d0 if self.d1 else ~self.d0",
+    "select-with-default": "self.x <<= select_with(self.sv, {'00': self.d0}, default=self.d1)",
+}
+bad, rejected, accepted, n = [], [], [], 0
+
+
+def build(body):
+    ns = dict(globals())
+    src = f"""
+class Top(Entity):
+    sv = Port.input(BitVector[2])
+    d0 = Port.input(Bit)
+    d1 = Port.input(Bit)
+    x = Port.output(Bit)
+
+    def architecture(self):
+        @std.concurrent
+        def logic():
+            {body}
+"""
+    fname = f"<control design {len(linecache.cache)}>"
+    linecache.cache[fname] = (len(src), None, src.splitlines(True), fname)
+    exec(compile(src, fname, "exec"), ns)
+    return std.VhdlCompiler.to_string(ns["Top"])
+
+
+for name, body in BODIES.items():
+    n += 1
+    try:
+        vhdl = build(body)
+    except Exception as e:
+        rejected.append(name)
+        continue
+    accepted.append(name)
+    lines = vhdl.splitlines()
+    start = max(i for i, l in enumerate(lines) if l.rstrip() == "begin")  # the `begin` of the architecture (column 0)
+    arch = re.sub(r"(?s)\w+\s*:\s*process.*?end process\s*;", "", "\n".join(lines[start + 1:]))
+    seq = [l.strip() for l in arch.splitlines() if re.match(r"\s*(if|elsif|case|for|while|loop)\b", l) or re.match(r"\s*\w+\s*:=", l)]
+    if seq:
+        bad.append([name, f"accepted: sequential statements between the concurrent statements of the architecture: {seq[:3]}"])
+print("RESULT" + json.dumps({"evaluations": n, "bad": bad, "rejected": rejected, "accepted": accepted}))
+'''
+
+
+def concurrent_control_sweep(tier="quick", seed=0):
+    """BOUNDED: control statements with run-time conditions in a CONCURRENT context (match, if, for-break) are rejected, or the
+    emitted architecture contains concurrent statements only; the expression forms (if-expression, select_with) are accepted"""
+    from contracts.c06_extra import _run_design
+
+    rc, text = _run_design(_CONTROL_SCRIPT)
+    if "RESULT" not in text:
+        return {"problems": [f"concurrent_control_sweep: the script failed: {text[-400:]}"]}
+    data = json.loads(text[text.index("RESULT") + 6:].splitlines()[0])
+    if not data["accepted"]:
+        return {"problems": [f"concurrent_control_sweep: every design was rejected ({data['rejected'][:3]}): nothing was checked"]}
+    violations = []
+    for key, what in data["bad"]:
+        oid = f"C08/concurrent_control_sweep[{key}]#bounded"
+        w = f"{key}: {what}"
+        violations.append({"kind": "custom", "qual": "<control statements in concurrent contexts>", "case": key, "oid": oid, "check": "concurrent_control_sweep", "key": key, "assignment": {"case": key}, "solver": {"what": w}, "reproduced": True,
+                           "replay_payload": {"property": "C08", "custom": "contracts.c08_select.replay_concurrent_control", "key": key, "obligation": oid, "verifier_output": w}})
+    return {"evaluations": data["evaluations"], "distinct": data["evaluations"], "violations": violations, "samples": [{"accepted": data["accepted"], "rejected at compile time": data["rejected"]}],
+            "bounded": [{"function": "cohdl._compiler.frontend._prepare_ast:PrepareAst.apply_impl (ast.Match / ast.If / ast.For in a concurrent context)", "case": "concurrent_control_sweep", "evaluations": data["evaluations"],
+                         "exhaustive_within_bound": False, "bound": "8 statement shapes in one concurrent context"}]}
+
+
+def replay_concurrent_control(payload):
+    r = concurrent_control_sweep()
+    hit = [v for v in r.get("violations", []) if v["key"] == payload["key"]]
+    return {"reproduced": bool(hit), "detail": hit[0]["solver"]["what"] if hit else "the architecture contains concurrent statements only"}
+
+
 def replay_select_default(payload):
     r = select_default_sweep()
     hit = [v for v in r.get("violations", []) if v["key"] == payload["key"]]
